@@ -62,6 +62,9 @@ func init() {
 func runC14(c *Ctx, r *Report) {
 	importFoundation(c, r, "C14", "escalation-secret")
 	importFoundation(c, r, "C14", "driver-options")
+	importFoundation(c, r, "C14", "platform-fresh")
+	r.Rule("C14/error-before-use", "in the constructors no product of a call is used before the error that came with it has been tested: ssh arguments that were rejected (an unusable key, known-hosts or config file option) are not used to open a connection", 1)
+	checkValueBeforeErrorCheck(c, r, "C14/error-before-use", constructorScope(c), "constructors")
 	r.Rule("C14/password-prompt-anchored", "the built-in pattern that decides when the login password is typed matches only where the prompt ends a line (the password goes to the authentication exchange only)", 1)
 	checkPasswordPromptAnchored(c, r, "C14/password-prompt-anchored")
 	r.Rule("C14/no-auth-steering", "the ssh argument list adds no option that steers authentication or host identity beyond the configured key / known-hosts / config file", 1)
